@@ -186,3 +186,64 @@ Example ex_handler : exiting310 ex_code 9 = EExit false 9.
 Proof. vm_compute. reflexivity. Qed.
 Example ex_body : exiting310 ex_code 1 = ENone.
 Proof. vm_compute. reflexivity. Qed.
+
+(* ------------------------------------------------------------------ termination of the walk *)
+(* The `while todo:` loop of the code terminates because every iteration either discards an item
+   whose offset was seen or marks a new offset seen and appends at most two items.  In the model:
+   the fuel handed to [walk] by [exiting310] is never exhausted. *)
+Fixpoint unseen (seen : list bool) (n : nat) : nat :=
+  match n with
+  | 0 => 0
+  | S n' => match seen with
+            | [] => S n'
+            | b :: r => (if b then 0 else 1) + unseen r n'
+            end
+  end.
+
+Lemma unseen_nil n : unseen [] n = n.
+Proof. destruct n; reflexivity. Qed.
+
+Lemma unseen_cons b r n : unseen (b :: r) (S n) = (if b then 0 else 1) + unseen r n.
+Proof. reflexivity. Qed.
+
+Lemma unseen_set : forall p seen n, p < n -> bit_get seen p = false ->
+  unseen (bit_set seen p) n + 1 = unseen seen n.
+Proof.
+  induction p as [|p IH]; intros seen n L G; destruct n as [|n]; try lia.
+  - destruct seen as [|b r]; cbn [bit_set bit_get] in *.
+    + rewrite unseen_cons, !unseen_nil. lia.
+    + subst b. rewrite !unseen_cons. lia.
+  - destruct seen as [|b r]; cbn [bit_set bit_get] in *.
+    + assert (G0 : bit_get [] p = false) by (destruct p; reflexivity).
+      specialize (IH [] n ltac:(lia) G0). rewrite unseen_cons, !unseen_nil in *. lia.
+    + specialize (IH r n ltac:(lia) G). rewrite !unseen_cons. lia.
+Qed.
+
+Lemma jumps_le1 i : length (jumps i) <= 1.
+Proof. destruct i; simpl; lia. Qed.
+
+Lemma walk_fuel_enough c pop : forall fuel todo seen,
+  length todo + 2 * unseen seen (length c) < fuel -> walk fuel c pop todo seen <> WOutOfFuel.
+Proof.
+  induction fuel as [|f IH]; intros todo seen M; [lia|]. simpl.
+  destruct todo as [|[p0 st] rest]; [discriminate|]. simpl in M.
+  destruct (bit_get seen p0) eqn:G; [apply IH; lia|].
+  destruct (length c <=? p0) eqn:L0; [discriminate|]. apply Nat.leb_gt in L0.
+  pose proof (unseen_set p0 seen (length c) L0 G) as U.
+  destruct (length c <=? skip_ext c p0); [discriminate|].
+  set (i := bat c (skip_ext c p0)).
+  pose proof (jumps_le1 i) as J.
+  destruct (is_pop_block i).
+  - destruct (skip_ext c p0 =? pop).
+    + destruct (last_opt _); discriminate.
+    + destruct (match i with BSetup _ t => st ++ [t] | _ => st end) as [|x l]; [discriminate|].
+      apply IH. rewrite !app_length, map_length. simpl. lia.
+  - apply IH. rewrite !app_length, map_length. destruct (no_fall i); simpl; lia.
+Qed.
+
+Theorem exiting310_total c lasti : exiting310 c lasti <> EFuel.
+Proof.
+  unfold exiting310. destruct (scan c lasti); try discriminate.
+  destruct (walk (walk_fuel c) c pop [(0, [])] []) eqn:W; try discriminate.
+  exfalso. revert W. apply walk_fuel_enough. rewrite unseen_nil. unfold walk_fuel. simpl. lia.
+Qed.
